@@ -2,6 +2,8 @@ package checks
 
 import (
 	"fmt"
+	"strings"
+	"sync"
 
 	"github.com/indexsupply/shovel/shovel"
 
@@ -133,6 +135,9 @@ type c05DepPair struct {
 	provP []*mPair
 	// positions of the providers when the step began
 	before []uint64
+	// lastRead: positions of the providers when the step last asked the database for its dependencies' positions
+	// (observed only in the episode that rewinds a reference inside the dependent's step; nil otherwise)
+	lastRead []uint64
 }
 
 func c05Run(c *vk.Case) {
@@ -313,6 +318,7 @@ func c05Run(c *vk.Case) {
 			return
 		}
 		beforeState = p.pm.captureLive()
+		dp.lastRead = nil
 		dp.before = dp.before[:0]
 		for _, q := range dp.provP {
 			n, _ := position(q)
@@ -357,6 +363,10 @@ func c05Run(c *vk.Case) {
 				bound := qpos
 				if dp.before[i] > bound {
 					bound = dp.before[i]
+				}
+				if len(dp.lastRead) == len(dp.provP) {
+					// the step's reads of the provider's position were observed: the last one decided how far it went
+					bound = max(qpos, dp.lastRead[i])
 				}
 				if (!qhas && dp.before[i] == 0) || bound < pos {
 					cls := "reference-behind"
@@ -536,6 +546,72 @@ func c05Run(c *vk.Case) {
 			stepRef(s, i)
 			started[s][i] = true
 		}
+	}
+	if reorgs && len(c.Res.Violations) == 0 {
+		// a reference digests a reorganisation INSIDE a dependent's step: the dependent has read its own position and is
+		// waiting for the blocks that will show it the reorganisation when the reference rewinds and commits; coming
+		// round again, the dependent asks for its dependencies' positions anew and has to go by what is committed then
+		dp := vk.Pick(r, depPairs)
+		for k := 0; k < 6 && len(c.Res.Violations) == 0; k++ {
+			for _, q := range dp.provP {
+				me.stepSeq(q, false)
+			}
+			stepDep(dp)
+		}
+		// the references move two blocks ahead of the dependent, then the dependent's own tip is replaced as well
+		chain.Grow(2)
+		for k := 0; k < 2; k++ {
+			for _, q := range dp.provP {
+				me.stepSeq(q, false)
+			}
+		}
+		chain.Reorg(4, 4+r.Intn(2))
+		c.Obs("reorgs_applied", 1)
+		me.trace = append(me.trace, "grow(2), references step, reorg(4) + references rewind inside the dependent's step")
+		var (
+			hmu   sync.Mutex
+			fired bool
+			inRef bool
+		)
+		me.env.PG.SetFaultHook(func(op *fakepg.Op) fakepg.Fault {
+			hmu.Lock()
+			defer hmu.Unlock()
+			if inRef {
+				return fakepg.Fault{}
+			}
+			if !fired && op.Kind == "delete" && op.Table == "shovel.task_updates" {
+				// the dependent has seen the reorganisation and unwinds its own position: before that statement runs,
+				// everything it references digests the reorganisation in transactions of its own (store lock released)
+				fired = true
+				return fakepg.Fault{Kind: fakepg.FDelay, Call: func() {
+					hmu.Lock()
+					inRef = true
+					hmu.Unlock()
+					c.Obs("reference_rewinds_inside_dependent_step", 1)
+					for _, q := range dp.provP {
+						q.task.Converge()
+					}
+					hmu.Lock()
+					inRef = false
+					hmu.Unlock()
+				}}
+			}
+			if strings.Contains(op.SQL, "distinct on (ig_name)") {
+				// (the store lock is held here: read the committed state directly)
+				var rd []uint64
+				for _, q := range dp.provP {
+					n, _ := q.pm.captureFrom(me.env.PG.TableByName, me.env.PG.CommittedRows).position()
+					rd = append(rd, n)
+				}
+				dp.lastRead = rd
+				c.Obs("dependency_reads_observed", 1)
+			}
+			return fakepg.Fault{}
+		})
+		me.anyOwner = true
+		me.stepSeq(dp.p, false)
+		me.anyOwner = false
+		me.env.PG.SetFaultHook(nil)
 	}
 	if len(c.Res.Violations) > 0 {
 		return
